@@ -80,15 +80,27 @@ fn compile(src: &str) -> Outcome {
         Err(_) => Outcome::Panic,
     }
 }
+fn split_files(src: &str) -> Vec<(PathBuf, String)> {
+    let mut files = vec![(PathBuf::from("/witness/main.sy"), String::new())];
+    for line in src.split_inclusive('\n') {
+        if let Some(name) = line.strip_prefix("//==file ") {
+            files.push((PathBuf::from("/witness").join(name.trim()), String::new()));
+        } else {
+            files.last_mut().unwrap().1.push_str(line);
+        }
+    }
+    files
+}
 fn compile_here(src: &str) -> Outcome {
     let src = src.to_string();
     let r = std::panic::catch_unwind(move || {
         let path = PathBuf::from("/witness/main.sy");
+        // a program of several files is written as one text: `//==file NAME.sy` starts the next file
+        let files: Vec<(PathBuf, String)> = split_files(&src);
         let reader = |p: &Path| -> Result<String, Error> {
-            if p == Path::new("/witness/main.sy") {
-                Ok(src.clone())
-            } else {
-                Err(Error::FileNotFound(p.to_path_buf()))
+            match files.iter().find(|(name, _)| name == p) {
+                Some((_, text)) => Ok(text.clone()),
+                None => Err(Error::FileNotFound(p.to_path_buf())),
             }
         };
         let tree = match sylt_parser::tree(&path, reader, true) {
@@ -423,6 +435,18 @@ fn programs(family: &str) -> Vec<(String, Outcome)> {
             p(&st("    x := B { a: 1, b: 2 }\n    y := x.a + x.b\n"), Outcome::Accept);
             p(&st("    x := B { a: 1, b: \"s\" }\n"), Outcome::Reject);
             p(&st("    x := X { a: 1 }\n"), Outcome::Reject);
+        }
+        "start" => {
+            // a program needs a global `start` in the MAIN file
+            let other_with = "//==file other.sy\nstart :: fn do\n    print(1)\nend\n";
+            let other_without = "//==file other.sy\nhelper :: fn do\n    print(1)\nend\n";
+            p(&format!("use other\nstart :: fn do\n    other.helper()\nend\n{}", other_without), Outcome::Accept);
+            p(&format!("use other\nhelper :: fn do\n    print(2)\nend\n{}", other_with), Outcome::Reject);
+            p(&format!("use other\nhelper :: fn do\n    print(2)\nend\n{}", other_without), Outcome::Reject);
+            p(&format!("use other\nstart :: fn do\n    print(2)\nend\n{}", other_with), Outcome::Accept);
+            p("helper :: fn do\n    print(2)\nend\n", Outcome::Reject);
+            p("helper :: fn do\n    start :: fn do\n        print(2)\n    end\nend\n", Outcome::Reject);
+            p("start :: fn do\n    print(2)\nend\n", Outcome::Accept);
         }
         "order" => {
             // globals may be written in any order; initialisers that need each other are rejected
